@@ -1,4 +1,5 @@
 import NixModel.SizeVec
+import NixModel.Chunking
 import NixModel.Drive.Common
 /-
   `ab_*` ops (harness/fam_abuse.cpp): size-vector arithmetic, NDArray element access, position tests — predicted by
@@ -59,6 +60,13 @@ def handle (op : String) (args impl : List String) : Option Out :=
         let f := if fi == 0 then "ok" else "OutOfBounds"
         cmp s!"ab_tagidx.{kind}.{r}.{f}" ("ok" :: (if kind == "T" then [r, r, r, f, f] else [r, r, r, f, f, f])) impl
       | _, _ => .malformed "ab_tagidx args")
+  -- DataSet::guessChunking, replayed on NixModel/Chunking.lean bit for bit (the loop of which Props/C16Chunk.lean proves termination)
+  | "ab_chunk", [shape, esz] =>
+    some (match parseListOf parseNat shape, parseNat esz with
+      | some sh, some e =>
+        if sh.isEmpty then cmp "ab_chunk.rank0" ["err", "InvalidRank"] impl
+        else cmp s!"ab_chunk.r{sh.length}" ["ok", fmtList ((Nix.Chunk.guess sh e).map toString)] impl
+      | _, _ => .malformed "ab_chunk args")
   | "ab_posin", [shape, pos, count] =>
     some (match parseListOf parseNat shape, parseListOf parseNat pos with
       | some sh, some p =>
